@@ -63,6 +63,11 @@ func c06Catalogue() []Case {
 			Prologue: []COp{set(0, 1)}, Clients: [][]COp{{get(0)}, {get(0), get(0)}, {set(0, 2)}}},
 		{Prof: "c06", Keys: []string{"x", "y"}, Epilogue: true, Note: "lister || writer-then-lister",
 			Prologue: []COp{set(0, 1)}, Clients: [][]COp{{{K: "keys"}}, {set(1, 2), {K: "keys"}}}},
+		// a listing is one instant: it cannot show the effect of a later write without that of an earlier one
+		{Prof: "c06", Keys: []string{"x", "z"}, Epilogue: true, Note: "lister || create one key, then delete another",
+			Prologue: []COp{set(0, 1)}, Clients: [][]COp{{{K: "keys"}}, {set(1, 2), {K: "del", Key: 0}}}},
+		{Prof: "c06", Keys: []string{"x", "y"}, Epilogue: true, Note: "lister || delete one key, then another",
+			Prologue: []COp{set(0, 1), set(1, 1)}, Clients: [][]COp{{{K: "keys"}}, {{K: "del", Key: 0}, {K: "del", Key: 1}}}},
 		// the directory limit is 2 here (light backend only): the prologue fills the only directory, so the
 		// concurrent writes meet the moment it is retired and replaced
 		{Prof: "c06", Keys: []string{"x", "y", "z", "w"}, Epilogue: true, Deep: true, DirMax: 2, Note: "two writers at the moment the only directory is full",
